@@ -61,7 +61,7 @@ Op(c) ==
     [] c = "prigc"  -> \E lu \in LowUses, dl \in Deadlines : PriGC(lu, dl)
     [] c = "reopen" -> \E s \in {"keep", "drop", "bad"} : Reopen(s)
     [] c = "rebits" -> \E b \in BitsSet, s \in {"keep", "drop"} : Rebits(b, s)
-    [] c = "openwrong" -> \E w \in {1, 2} : OpenWrong(w)
+    [] c = "openwrong" -> \E w \in 1..4 : OpenWrong(w)    \* 1 index limit, 2 primary limit; 3, 4 the same with another bit size as well
 
 Next == \E i \in 1..Len(Weights) : Op(Weights[i])
 
